@@ -187,14 +187,4 @@ def run(ck):
     # ---- clause 4: shared with C02.4 -----------------------------------------------------------------------------------
     from props import C02
 
-    sub = type(ck)(ck.prop, ck.facts, ck.config, ck.tier)
-    try:
-        C02.run(sub)
-    except AnchorMissing:
-        pass
-    for r in sub.results:
-        if r["clause"] == "4" and "Channel" in r["function"]:
-            r = dict(r)
-            r["key"] = r["key"].replace("C02.4", "C04.4").replace(sub.prop + ".4", "C04.4")
-            ck.results.append(r)
-    ck.floors += [fl for fl in sub.floors if "Channel" in fl["what"]]
+    common.import_results(ck, C02, "4", "Channel", "4")
